@@ -669,9 +669,24 @@ def r_pair(ctx):
             for atom, pol in ctx.conds(f, nd):
                 if pol and atom[0] == 'cmp' and atom[1] == '==' and atom[3] == ('c', 0) and is_call(atom[2], 'builtins.len'):
                     okk = True
-                # `if not latter_map[u]:`  (an empty list is falsy)
-                if not pol and atom[0] == 'sub' and atom[1][0] == 'v' and atom[1][1] == 'latter_map' and \
-                        strip_int(atom[2]) == strip_int(u):
+                # `if not latter_map[u]:`  (an empty list is falsy); also through a name bound to that list
+                tgt_ = atom
+                if tgt_[0] == 'v' and isinstance(tgt_[2], tuple):
+                    todo, seen_ = list(tgt_[2]), set()
+                    while todo:
+                        di = todo.pop()
+                        if di in seen_:
+                            continue
+                        seen_.add(di)
+                        if f.defs[di].kind == 'assign':
+                            tgt_ = TermBuilder(f, f.defs[di].node).def_term(di) or tgt_
+                            break
+                        if f.defs[di].kind == 'mutate':       # the same object, modified in place
+                            todo.extend(f.reaching(f.defs[di].node, f.defs[di].name))
+                if is_call(tgt_, 'builtins.len') and tgt_[2]:
+                    pass
+                if not pol and tgt_[0] == 'sub' and tgt_[1][0] == 'v' and tgt_[1][1] == 'latter_map' and \
+                        strip_int(tgt_[2]) == strip_int(u):
                     okk = True
     # witnesses: no deletion of a key at all (the clean-up was dropped); emptiness decided by any(...), which is also false
     # for a list that still holds vertex 0
